@@ -222,6 +222,34 @@ fn g_header(src: &mut Src, obs: &mut Obs) -> CaseResult {
 }
 pub const VARIANTS: usize = 16 * 4 * 4;
 
+/// Data fields that mean something to smart-card and FIDO-over-NFC stacks (applet identifiers, the
+/// version string, a CTAP2 command wrapped for NFC); the U2F conversion must not care.
+pub const KNOWN_DATA: [&[u8]; 7] = [
+    &[0xA0, 0x00, 0x00, 0x06, 0x47, 0x2F, 0x00, 0x01], // FIDO applet AID
+    &[0xA0, 0x00, 0x00, 0x06, 0x47, 0x2F, 0x00],
+    &[0xA0, 0x00, 0x00, 0x05, 0x27, 0x10, 0x02],       // another well-known AID
+    b"U2F_V2",
+    b"FIDO_2_0",
+    &[0x04],
+    &[],
+];
+/// instruction bytes that ISO 7816-4 / CTAP-NFC assign a meaning to (SELECT, GET RESPONSE,
+/// NFCCTAP_MSG, NFCCTAP_GETRESPONSE, DESELECT ...) and which the APDU parser may map to named variants
+pub const KNOWN_INS: [u8; 12] = [0xA4, 0xC0, 0x10, 0x11, 0x12, 0x20, 0x84, 0xB0, 0xD6, 0xCA, 0xDA, 0x00];
+
+/// words: [ins idx, data idx, p1 (raw), p2 (raw), cla selector, enc]
+fn g_known(src: &mut Src, obs: &mut Obs) -> CaseResult {
+    let ins = KNOWN_INS[src.below(KNOWN_INS.len())];
+    let data = KNOWN_DATA[src.below(KNOWN_DATA.len())];
+    let p1 = src.word() as u8;
+    let p2 = src.word() as u8;
+    let cla = if src.chance(3, 4) { 0 } else { *src.pick(&[0x80u8, 0x90, 0x01]) };
+    let enc = src.below(4);
+    obs.label("known-instruction-and-data");
+    check_apdu(cla, ins, p1, p2, data, enc, obs)
+}
+pub const G_KNOWN: Gen = Gen { name: "c08_known", f: g_known };
+
 /// random data contents and lengths
 fn g_random(src: &mut Src, obs: &mut Obs) -> CaseResult {
     let cla = if src.chance(4, 5) { 0 } else { src.byte() };
@@ -311,10 +339,10 @@ pub const G_RAW: Gen = Gen { name: "c08_raw", f: g_raw };
 pub const G_CONCRETE: Gen = Gen { name: "c08_concrete", f: g_concrete };
 
 pub fn gens() -> Vec<Gen> {
-    vec![G_HEADER, G_RANDOM, G_RAW, G_CONCRETE, Gen { name: "c08_raw_concrete", f: g_concrete }]
+    vec![G_HEADER, G_RANDOM, G_RAW, G_KNOWN, G_CONCRETE, Gen { name: "c08_raw_concrete", f: g_concrete }]
 }
 
-pub const RULE: &str = "APDUs are constructed by an independent ISO 7816-4 framer from (cla, ins, p1, p2, data, encoding in {short, short+Le, extended, extended+Le}, announced Le rotating over {max,1,5,6,7,255,256,65535}) and handed to iso7816's CommandView / Command<7609> parsers and then to both ctap1::Request conversions. Thorough: the complete header space (256 classes x 256 instructions x 256 P1), each header with one (length, encoding, key-handle-length-byte consistency) variant chosen by rotation, and for instructions 1, 2, 3 with ALL 256 variants (16 data lengths on the decision boundaries 0,1,32,63..67,96,255,256,318..321,400 x 4 encodings x 4 consistency modes); quick: every (cla, ins) with P1 in {0,3,7,8,0xFF, rotating} and all variants for cla 0 / ins 1,2,3. Plus proptest APDUs with random data (incl. payloads of 7000..7610 and 65535 bytes) and raw byte strings; the owned entry point is additionally exercised with Command<S> buffers that the payload fills exactly. Oracle: the statement transcribed (class check first; ins 3 -> Version; ins 1 -> Register iff 64 bytes; ins 2 -> Authenticate iff P1 in {3,7,8} and len == 65 + data[64]; otherwise the named status), both entry points agree, no panic. Class 0xFF is rejected by the APDU parser itself and nothing further is asserted for it. Non-trivial: cla == 0 and ins in {1,2}; distinct by APDU bytes.";
+pub const RULE: &str = "APDUs are constructed by an independent ISO 7816-4 framer from (cla, ins, p1, p2, data, encoding in {short, short+Le, extended, extended+Le}, announced Le rotating over {max,1,5,6,7,255,256,65535}) and handed to iso7816's CommandView / Command<7609> parsers and then to both ctap1::Request conversions. Thorough: the complete header space (256 classes x 256 instructions x 256 P1), each header with one (length, encoding, key-handle-length-byte consistency) variant chosen by rotation, and for instructions 1, 2, 3 with ALL 256 variants (16 data lengths on the decision boundaries 0,1,32,63..67,96,255,256,318..321,400 x 4 encodings x 4 consistency modes); quick: every (cla, ins) with P1 in {0,3,7,8,0xFF, rotating} and all variants for cla 0 / ins 1,2,3. Plus every combination of 12 instruction bytes that ISO 7816-4 / CTAP-NFC give a meaning to (SELECT, GET RESPONSE, NFCCTAP_MSG ...) with 7 data fields that mean something elsewhere in the stack (the FIDO applet AID, version strings, a wrapped CTAP2 command) x P1 {0,3,4,0x0C,0x80} x encodings. Plus proptest APDUs with random data (incl. payloads of 7000..7610 and 65535 bytes) and raw byte strings; the owned entry point is additionally exercised with Command<S> buffers that the payload fills exactly. Oracle: the statement transcribed (class check first; ins 3 -> Version; ins 1 -> Register iff 64 bytes; ins 2 -> Authenticate iff P1 in {3,7,8} and len == 65 + data[64]; otherwise the named status), both entry points agree, no panic. Class 0xFF is rejected by the APDU parser itself and nothing further is asserted for it. Non-trivial: cla == 0 and ins in {1,2}; distinct by APDU bytes.";
 pub const ASSUMPTIONS: &[&str] = &["the harness framer follows ISO 7816-4 cases 1, 2S/2E, 3S/3E, 4S/4E", "iso7816's parser is part of the system under test (its data slice is compared with the framed data)"];
 
 pub fn run(ctx: &mut Ctx) {
@@ -351,11 +379,24 @@ pub fn run(ctx: &mut Ctx) {
         return;
     }
     let _ = idx(0, 1);
+    // instructions and data fields with a meaning elsewhere in the stack: all combinations x P1 {0, 4, 0x0C, 0x80} x encodings
+    let mut known: Vec<Vec<u32>> = vec![];
+    for i in 0..KNOWN_INS.len() {
+        for d in 0..KNOWN_DATA.len() {
+            for p1 in [0u32, 4, 0x0C, 0x80, 3] {
+                for enc in 0..4 {
+                    known.push(vec![idx(i, KNOWN_INS.len()), idx(d, KNOWN_DATA.len()), p1, 0, u32::MAX, idx(enc, 4)]);
+                }
+            }
+        }
+    }
+    ctx.enumerate(&G_KNOWN, known.into_iter());
+    ctx.random(&G_KNOWN, &[], ctx.t(5_000, 100_000), 16);
     ctx.random(&G_RANDOM, &[], ctx.t(60_000, 2_000_000), 160);
     ctx.random(&G_RAW, &[], ctx.t(60_000, 2_000_000), 40);
     ctx.require(&[
         "expect:Version", "expect:Register", "expect:Authenticate", "expect:ClassNotSupported", "expect:IncorrectDataParameter",
         "expect:InstructionNotSupportedOrInvalid", "encoding:short", "encoding:short+Le", "encoding:extended", "encoding:extended+Le",
-        "ins1:len64", "ins1:len63", "ins1:len65", "ins2:len65", "ins2:len64", "ins2:len66", "ins2:len320", "ins2:len321", "ins2:len319", "raw:parsed", "long-payload", "owned:exactly-full",
+        "ins1:len64", "ins1:len63", "ins1:len65", "ins2:len65", "ins2:len64", "ins2:len66", "ins2:len320", "ins2:len321", "ins2:len319", "raw:parsed", "long-payload", "owned:exactly-full", "known-instruction-and-data",
     ]);
 }
